@@ -141,7 +141,8 @@ def k_downsample(ctx, seqs, maxseqs, container, np_seed):
             r = out.value
             try:
                 if container in ("table", "table_dupindex"):
-                    same = list(r.index) == list(x.index) and list(r.columns) == list(x.columns) and r.values.tolist() == x.values.tolist()
+                    same = list(r.index) == list(x.index) and list(r.columns) == list(x.columns) and \
+                        [[repr(v) for v in row] for row in r.values.tolist()] == [[repr(v) for v in row] for row in x.values.tolist()]      # repr: missing cells compare equal
                 else:
                     same = [str(v) for v in list(r)] == [str(v) for v in list(x)]
             except Exception:
